@@ -256,8 +256,8 @@ def run_shard(shard):
             # submodule that depends on xarray being loaded first shows there
             full = tier != "quick" or level == 0 or (len(h) == 1 and h[0] == "import:xarray")
             level_evs = evs if full else core
-            for c0 in range(0, len(level_evs), 24):
-                jobs.append((h, level_evs[c0:c0 + 24]))
+            for c0 in range(0, len(level_evs), 6):
+                jobs.append((h, level_evs[c0:c0 + 6]))
         with ThreadPoolExecutor(nworkers()) as tp:
             parts = list(tp.map(lambda j: (j[0], _expand(j[0], j[1])), jobs))
         merged = {}
